@@ -396,6 +396,15 @@ def run_case(c):
         if c["attr"] == "rebound" and steps == 4:
             progs = [["construct", "iter", "rebound", "solve"], ["construct", "iter", "iter", "solve"]]
             obs["programs_with_setbounds_on_own_evolvent"] = 1
+        elif c["attr"] == "obj" and steps == 4:
+            # BOTH solvers polish their optimum (DoLocalRefinement in between, or refineSolution=True at the end of Solve): what one
+            # reported before the other refined must still be reported afterwards
+            # (the solvers of this tuple minimise different objectives, so their refined values differ)
+            if list(c["scheds"][0]) == sorted(c["scheds"][0]):
+                progs = [["construct", "iter", "local", "solve"], ["construct", "iter", "local", "solve"]]
+            else:
+                scns = [dict(x, refine=True) for x in scns]
+            obs["programs_where_every_solver_refines"] = 1
         elif c["attr"] in ("sameproblem", "inner", "twin", "m") and steps == 4:
             # one of the solvers polishes its optimum in between (DoLocalRefinement rewrites the best trial in place)
             progs = [["construct", "iter", "local", "solve"], ["construct", "iter", "iter", "solve"]]
@@ -480,6 +489,8 @@ def finalize(obs, tier, stats):
         return "sibling tuples never exercised for: %s" % miss, {}
     if not obs.get("programs_with_setbounds_on_own_evolvent"):
         return "no interleaved program re-bounded its own evolvent", {}
+    if not obs.get("programs_where_every_solver_refines"):
+        return "no interleaved program had every solver refine", {}
     if not obs.get("programs_with_local_refinement"):
         return "no interleaved program contained a local refinement", {}
     if not obs.get("tuples_with_first_trial_optimum") or not obs.get("intruders"):
